@@ -143,9 +143,10 @@ class C01(Prop):
     timeout = 3600
 
     def streams(self, tier, rng):
+        search = tier == "search"      # the bounded search after a broken obligation: thorough minus the heaviest streams
         n = 400 if tier == "quick" else 4000
-        s = [("exhaustive-len<=2", exhaustive_short(2, ENTRIES)),
-             ("exhaustive-len-3", enumerate_cases(3, ENTRIES)),
+        s = [("exhaustive-len<=2", [] if search else exhaustive_short(2, ENTRIES)),
+             ("exhaustive-len-3", [] if search else enumerate_cases(3, ENTRIES)),
              ("corpus-all-entries", S.corpus_d(ENTRIES)),
              ("guards", guard_cases()),
              ("structured", S.structured_d(rng, n)),
@@ -166,17 +167,18 @@ class C01(Prop):
             for x in G.near_miss(rng, w, rn, 3)[:12]:
                 big.append(S.d("Dns", x))
         s.append(("big", big))
-        if tier == "thorough":
+        if tier in ("thorough", "search"):
             # every octet string of length 4 as a name (4.3e9 decodes per runner); the flag and code entry points read
             # two octets only, so longer inputs add nothing there
-            s.append(("exhaustive-len-4-names", enumerate_cases(4, ["DomainName"])))
+            if not search:
+                s.append(("exhaustive-len-4-names", enumerate_cases(4, ["DomainName"])))
             # coverage-guided search (libFuzzer) seeded with the repository's vectors: crash inputs on every entry
             # point, the corpus it grew (inputs reaching new code) on the message and record entry points
             import common as C
             import os
             wd = os.path.join(C.WORK, "C01-fuzz")
             os.makedirs(wd, exist_ok=True)
-            crashes, found, log = C.fuzz_inputs(180, wd, S.corpus())
+            crashes, found, log = C.fuzz_inputs(60 if search else 180, wd, S.corpus())
             self.fuzz_log = "%d crash inputs, corpus grown to %d inputs; %s" % (len(crashes), len(found), log.replace("\n", " ")[-160:])
             fz = []
             for b in crashes:
